@@ -1,6 +1,6 @@
 (* C07 — proofs, part 2: the closed forms ForLoopPT builds (Sum with ceiling/Max, Piecewise for the empty range, the
    substituted start / final index) evaluate to the sum over / the first / the last element of the Python range. *)
-From Coq Require Import ZArith QArith Qround List Bool Lia ZifyBool Lra Lqa FunctionalExtensionality.
+From Coq Require Import ZArith QArith Qround List Bool Lia ZifyBool Lra Lqa.
 Require Import QV.C07.Model QV.C07.Spec QV.C07.ProofsRange.
 Import ListNotations.
 Open Scope Q_scope.
@@ -23,8 +23,14 @@ Proof. unfold Qle_bool, Qminus, Qplus, Qopp, inject_Z. cbn [Qnum Qden]. f_equal;
 Lemma env_upd_same rho i v : env_upd rho i v i = v.
 Proof. unfold env_upd. rewrite N.eqb_refl. reflexivity. Qed.
 
-Lemma env_upd_shadow rho i v w : env_upd (env_upd rho i v) i w = env_upd rho i w.
-Proof. apply functional_extensionality; intros y. unfold env_upd. destruct (N.eqb y i); reflexivity. Qed.
+Lemma env_upd_other rho i v x : x <> i -> env_upd rho i v x = rho x.
+Proof. intros H. unfold env_upd. rewrite (proj2 (N.eqb_neq x i) H). reflexivity. Qed.
+
+(* "the body's quantity e has value f k whenever the loop index is bound to k": stated for every environment that
+   agrees with rho outside the index (the substituted body is evaluated under a re-bound index) *)
+Definition body_rule (rho : env) (i : var) (e : expr) (ks : list Z) (f : Z -> Q) : Prop :=
+  forall k q rho', In k ks -> q == inject_Z k -> (forall x, x <> i -> rho' x = rho x) -> rho' i = Some q ->
+                   ev_eq rho' e (f k).
 
 Lemma is_int_of_eq h z : h == inject_Z z -> is_int h = true /\ Qfloor h = z.
 Proof.
@@ -73,7 +79,7 @@ Theorem for_sum_correct rho i start stop step e a o s ks (f : Z -> Q) :
   int_val rho start a -> int_val rho stop o -> int_val rho step s ->
   indep i start rho -> indep i step rho ->
   py_range a o s = Some ks ->
-  (forall k q, In k ks -> q == inject_Z k -> ev_eq (env_upd rho i (Some q)) e (f k)) ->
+  body_rule rho i e ks f ->
   ev_eq rho (EIfLe (loop_count start stop step) e0 e0 (loop_sum i start stop step e)) (sumZ f ks).
 Proof.
   intros Ha Ho Hs Ia Is Hr Hbody.
@@ -114,23 +120,28 @@ Proof.
     (* one term of the Sum: the substituted body *)
     cbn [eval]. rewrite Ia, Is.
     destruct Ha as (qa & Ea & Hqa). destruct Hs as (qs & Es & Hqs).
-    rewrite Ea, Es. rewrite env_upd_same. cbn [omap2]. rewrite env_upd_shadow.
-    apply Hbody.
+    rewrite Ea, Es. rewrite env_upd_same. cbn [omap2].
+    apply (Hbody (a + k * s)%Z (qa + inject_Z k * qs)).
     + rewrite Hks. replace k with (Z.of_nat (Z.to_nat k)) by lia. apply range_from_In. lia.
     + rewrite Hqa, Hqs. rewrite inject_Z_plus, inject_Z_mult. reflexivity.
+    + intros x Hx. rewrite !env_upd_other by assumption. reflexivity.
+    + apply env_upd_same.
 Qed.
 
 (* ---- ForLoopPT.initial_values: the body's value with the index replaced by `start` ---- *)
 Theorem for_initial_correct rho i start a e (f : Z -> Q) ks o s :
   int_val rho start a -> py_range a o s = Some ks -> ks <> [] ->
-  (forall k q, In k ks -> q == inject_Z k -> ev_eq (env_upd rho i (Some q)) e (f k)) ->
+  body_rule rho i e ks f ->
   ev_eq rho (ELet [(i, start)] e) (f (hd 0%Z ks)).
 Proof.
   intros (qa & Ea & Hqa) Hr Hne Hbody. unfold ev_eq. cbn [eval]. rewrite Ea.
   destruct (py_range_spec _ _ _ _ Hr) as (_ & _ & Hnth).
   destruct ks as [|k0 ks]; [congruence|]. cbn [hd].
   destruct (Hnth 0%nat ltac:(simpl; lia)) as (H0 & _). cbn [nth] in H0.
-  apply Hbody; [left; reflexivity|]. rewrite Hqa. assert (Hk : k0 = a) by (rewrite H0; simpl; ring). rewrite Hk. reflexivity.
+  apply (Hbody k0 qa); [left; reflexivity| | |].
+  - rewrite Hqa. assert (Hk : k0 = a) by (rewrite H0; simpl; ring). rewrite Hk. reflexivity.
+  - intros x Hx. apply env_upd_other. exact Hx.
+  - apply env_upd_same.
 Qed.
 
 (* ---- ForLoopPT.final_values: start + Max((stop-start)//step - 1, 0)*step ---- *)
@@ -157,7 +168,7 @@ Qed.
 Theorem for_final_correct_guarded rho i start stop step e a o s ks (f : Z -> Q) :
   int_val rho start a -> int_val rho stop o -> int_val rho step s ->
   py_range a o s = Some ks -> ks <> [] -> ((o - a) mod s = 0)%Z ->
-  (forall k q, In k ks -> q == inject_Z k -> ev_eq (env_upd rho i (Some q)) e (f k)) ->
+  body_rule rho i e ks f ->
   ev_eq rho (ELet [(i, loop_final_index start stop step)] e) (f (last ks 0%Z)).
 Proof.
   intros Ha Ho Hs Hr Hne Hdiv Hbody.
@@ -165,21 +176,23 @@ Proof.
   destruct (eval_loop_final_index rho start stop step a o s Ha Ho Hs Hsn) as (q & Eq & Hq).
   unfold ev_eq. cbn [eval]. rewrite Eq.
   rewrite (floor_final_index_ok a o s ks Hr Hne Hdiv) in Hq.
-  apply Hbody; [|exact Hq].
-  destruct ks; [congruence|]. apply (@exists_last _ (z :: ks)) in Hne as (l' & x & Hl).
-  rewrite Hl. rewrite last_last. apply in_or_app. right. left. reflexivity.
+  apply (Hbody (last ks 0%Z) q); [|exact Hq| |].
+  - destruct ks; [congruence|]. apply (@exists_last _ (z :: ks)) in Hne as (l' & x & Hl).
+    rewrite Hl. rewrite last_last. apply in_or_app. right. left. reflexivity.
+  - intros x Hx. apply env_upd_other. exact Hx.
+  - apply env_upd_same.
 Qed.
 
 (* without the guard it is not: range(0, 5, 2) with a body that returns its index *)
 Theorem for_final_refuted :
   exists rho i start stop step e a o s ks (f : Z -> Q),
     int_val rho start a /\ int_val rho stop o /\ int_val rho step s /\ py_range a o s = Some ks /\ ks <> [] /\
-    (forall k q, In k ks -> q == inject_Z k -> ev_eq (env_upd rho i (Some q)) e (f k)) /\
+    body_rule rho i e ks f /\
     ~ ev_eq rho (ELet [(i, loop_final_index start stop step)] e) (f (last ks 0%Z)).
 Proof.
   exists env_empty, 1%N, (EC 0), (EC 5), (EC 2), (EV 1%N), 0%Z, 5%Z, 2%Z, [0; 2; 4]%Z, inject_Z.
   repeat split; try (eexists; split; reflexivity); try discriminate.
-  - intros k q _ Hq. exists q. split; [reflexivity|exact Hq].
+  - intros k q rho' _ Hq _ Hi. exists q. split; [exact Hi|exact Hq].
   - intros (v & Ev & Hv). vm_compute in Ev. inversion Ev; subst v. vm_compute in Hv. discriminate.
 Qed.
 
